@@ -76,6 +76,18 @@ func (c *Conn) makeClientHello() (*clientHelloMsg, error) {
 
 	// 若用户指定应用层协议，则发送ALPN类型扩展
 	if len(config.NextProtos) > 0 {
+		// opaque ProtocolName<1..2^8-1>, ProtocolNameList<2..2^16-1>: refuse what cannot be encoded
+		// (an empty name would be sent as is and rejected by the peer's decoder)
+		nextProtosLength := 0
+		for _, proto := range config.NextProtos {
+			if l := len(proto); l == 0 || l > 255 {
+				return nil, errors.New("tlcp: invalid NextProtos value")
+			}
+			nextProtosLength += 1 + len(proto)
+		}
+		if nextProtosLength > 0xffff {
+			return nil, errors.New("tlcp: NextProtos values too large")
+		}
 		hello.alpnProtocols = config.NextProtos
 	}
 
